@@ -31,5 +31,5 @@ HARNESSES += [SRC(x, 0, tiers=('thorough',)) for x in ('mmmRm', 'mR^mmR^m', 'mRm
 ASSUMPTIONS = ['custom data sources only (DATA_ADD / OR / REPLACE); kernel-backed source types (read/write/signal/proc: epoll back end) are outside',
                'one serial target queue; histories are sequential: a merge "during the handler" is issued from inside the handler on the same thread; merges racing the handler from other threads are covered by the tier-S lemmas S_latch_* (atomicity of the latch under interference)',
                'merged values in the histories are fixed distinct constants']
-LEVEL_TEXT = "Tier S: real dispatch_source_merge_data and _dispatch_source_latch_and_call on a source created through the real API, from an arbitrary pending value, with up to three concurrent merges injected at the unit's own atomic accesses: nothing merged is lost or delivered twice (ADD sum, OR union, REPLACE membership), the handler never sees zero, every merge wakes the source with MAKE_DIRTY. Tier H: histories of merge / worker / suspend / resume / merge-from-the-handler on ADD, OR and REPLACE sources driven entirely through the real API on a serial target queue: sums/unions/last value at quiescence, no re-entry, nothing delivered while suspended."
+LEVEL_TEXT = "Tier S: real dispatch_source_merge_data and _dispatch_source_latch_and_call on a source created through the real API, from an arbitrary pending value, with up to three concurrent merges injected at the unit's own atomic accesses: nothing merged is lost or delivered twice (ADD sum, OR union, REPLACE membership), the handler never sees zero, every merge wakes the source with MAKE_DIRTY. Tier H: histories of merge / worker / suspend / resume / merge-from-the-handler on ADD, OR and REPLACE sources driven entirely through the real API on a serial target queue: sums/unions/last value at quiescence, no re-entry, nothing delivered while suspended. Histories also with the source targeting a global (overcommit) root queue directly, including merges made by the handler itself."
 LEVEL_NOTE = "Custom data sources only (kernel-backed types are outside); histories are sequential with fixed distinct merge values (symbolic values make 'pending != 0' a symbolic branch: no verdict); concurrent merges are covered by the tier-S interference lemmas."
